@@ -45,7 +45,9 @@ pub fn style_strategy(max_shift: i32) -> impl Strategy<Value = Style> {
         prop_oneof![5 => Just(false), 1 => Just(true)],
         any::<bool>(),
         any::<bool>(),
-        prop_oneof![6 => Just(0u8), 1 => 1u8..3],
+        // leading zeros of the exponent: none, a few, and enough to push the exponent field past
+        // 10 / 20 characters (a field-width shortcut must count significant digits, not characters)
+        prop_oneof![12 => Just(0u8), 2 => 1u8..3, 1 => prop::sample::select(vec![8u8, 9, 10, 11, 12, 19, 20, 21, 40])],
         0u8..3,
         any::<bool>(),
     )
